@@ -395,6 +395,11 @@ def tie_b_items(res, workdir):
     return tie_b_generic(res, workdir, 'items', 'emit_items_v', 'ItemKernels.v', 'BridgeItems.v', 'Item/Padding/CH pack/unpack')
 
 
+def tie_b_gpsd(res, workdir):
+    """Tie B for the gpsd handshake: _parse_gpsd_msg / _parse_version / _parse_devices of ubxlib/server.py."""
+    return tie_b_generic(res, workdir, 'gpsd', 'emit_gpsd_v', 'GpsdKernels.v', 'BridgeGpsd.v', 'gpsd handshake parsing')
+
+
 def tie_b_cfgobj(res, workdir):
     """Tie B for the configuration item codec: CfgKeyData.pack/unpack (+ _pack_keyid, _pack_value, _unpack_value)."""
     return tie_b_generic(res, workdir, 'cfgobj', 'emit_cfgobj_v', 'CfgKernels.v', 'BridgeCfgObj.v', 'CfgKeyData.pack/unpack')
